@@ -271,6 +271,16 @@ class BoolColumn(BaseColumn):
     bool_value = True if value == 1 else (False if value == 0 else value)
     super(BoolColumn, self).set(row_id, bool_value)
 
+class IntColumn(DataColumn):
+  def set(self, row_id, value):
+    # The counterpart of NumericColumn.set(): treat whole-number floats as ints. A value may come
+    # back as a float when it passed through a Numeric or Date column without a change that gets
+    # recorded (1 and 1.0 are the same to clients), e.g. on undo of an Int->Numeric conversion.
+    # pylint: disable=unidiomatic-typecheck
+    if type(value) == float and value.is_integer() and objtypes.is_int_short(int(value)):
+      value = int(value)
+    super(IntColumn, self).set(row_id, value)
+
 class NumericColumn(BaseColumn):
   def set(self, row_id, value):
     # Make sure any integers are treated as floats to avoid truncation.
@@ -711,6 +721,7 @@ usertypes.Date.ColType = DateColumn
 usertypes.PositionNumber.ColType = PositionColumn
 usertypes.Bool.ColType = BoolColumn
 usertypes.Numeric.ColType = NumericColumn
+usertypes.Int.ColType = IntColumn
 
 def create_column(table, col_id, col_info):
   return col_info.type_obj.ColType(table, col_id, col_info)
